@@ -229,6 +229,18 @@ def log_Gi(Gfun, V, avail):
     return {i: math.log(g) for i, g in Gi.items()}
 
 
+def endogenous_sampling_probs(P, corr):
+    """MEV model with the correction for endogenous sampling (Bierlaire, Bolduc & McFadden 2008): the logit on
+    V_i + ln G_i + w_i over the available alternatives.  P: dict alt -> probability of the uncorrected MEV model
+    (P_i proportional to e^{V_i + ln G_i}, zero when unavailable); corr: dict alt -> w_i.
+    P'_i = P_i e^{w_i} / sum_j P_j e^{w_j}; the largest w of an alternative with P > 0 is taken out first."""
+    live = [i for i in P if P[i] > 0.0]
+    top = max(corr[i] for i in live)
+    w = {i: (P[i] * math.exp(corr[i] - top) if P[i] > 0.0 else 0.0) for i in P}
+    den = sum(w.values())
+    return {i: w[i] / den for i in P}
+
+
 # --------------------------------------------------------------------------- ordered models
 
 
